@@ -99,3 +99,429 @@ Proof.
   unfold i2p1. rewrite sub_cell, Hslo. unfold Z.sub. rewrite inject_Z_plus, inject_Z_opp. ring.
 Qed.
 End SubAxis.
+
+(* ---------- n dimensions ---------- *)
+Lemma nth_map_dflt {A B} (f : A -> B) l x d d' : (x < length l)%nat -> nth x (map f l) d' = f (nth x l d).
+Proof. intros H. rewrite (nth_indep _ d' (f d)) by (rewrite map_length; lia). apply map_nth. Qed.
+
+Definition inside_box (m : mesh) (p : list Q) : Prop :=
+  length p = length (pmin (reg m)) /\
+  forall x, (x < length (pmin (reg m)))%nat ->
+    nth x (pmin (reg m)) 0 <= nth x p 0 <= nth x (pmax (reg m)) 0.
+
+(* r is a union of cells of m: corners on the lattice, index bounds a (first cell) and b (one past the last) *)
+Definition aligned (m : mesh) (r : region) (a b : list Z) : Prop :=
+  length (pmin r) = length (pmin (reg m)) /\ length (pmax r) = length (pmin (reg m)) /\
+  length a = length (pmin (reg m)) /\ length b = length (pmin (reg m)) /\
+  forall x, (x < length (pmin (reg m)))%nat ->
+    (0 <= nth x a 0 < nth x b 0)%Z /\ (nth x b 0 <= nth x (n m) 1)%Z /\
+    nth x (pmin r) 0 == nth x (pmin (reg m)) 0 + inject_Z (nth x a 0%Z) * nth x (cell m) 0 /\
+    nth x (pmax r) 0 == nth x (pmin (reg m)) 0 + inject_Z (nth x b 0%Z) * nth x (cell m) 0.
+
+(* the centre of cell i lies in the closed region r *)
+Definition centre_in (m : mesh) (i : zidx) (r : region) : Prop :=
+  forall x, (x < length (pmin (reg m)))%nat ->
+    nth x (pmin r) 0 <= nth x (centre m i) 0 <= nth x (pmax r) 0.
+
+Section ND.
+Variable m : mesh.
+Hypothesis Hwf : wf_mesh m.
+Let nd := length (pmin (reg m)).
+
+Lemma nearest_idx_length q : length q = nd -> length (nearest_idx m q) = nd.
+Proof.
+  intros L. destruct (wf_lengths m Hwf) as [L1 [L2 L3]]. fold nd in L1, L2, L3.
+  unfold nearest_idx. rewrite map3_length, combine_length. fold nd. lia.
+Qed.
+
+Lemma nearest_idx_nth q x : length q = nd -> (x < nd)%nat ->
+  nth x (nearest_idx m q) 0%Z =
+  p2i1 (nth x (pmin (reg m)) 0)
+       (cell_of (nth x (pmin (reg m)) 0) (nth x (pmax (reg m)) 0) (nth x (n m) 1%Z))
+       (nth x (n m) 1%Z) (nth x q 0).
+Proof.
+  intros L Hx. destruct (wf_lengths m Hwf) as [L1 [L2 L3]]. fold nd in L1, L2, L3.
+  unfold nearest_idx.
+  rewrite (nth_map3 _ _ _ _ _ 0%Z (0, 0) 1%Z 0) by (rewrite ?combine_length; fold nd; lia).
+  rewrite nth_combine by (fold nd; lia). simpl.
+  rewrite (cell_nth m Hwf x Hx). reflexivity.
+Qed.
+
+Lemma contains_inside p : inside_box m p -> contains_pt (reg m) p = true.
+Proof.
+  intros [L H]. fold nd in L, H. destruct (wf_lengths m Hwf) as [L1 [L2 L3]]. fold nd in L1, L2, L3.
+  unfold contains_pt, ndim. fold nd. rewrite L, Nat.eqb_refl. simpl.
+  apply forallb_id_nth. intros x Hx. rewrite map3_length in Hx. fold nd in Hx.
+  rewrite (nth_map3 _ _ _ _ _ true 0 0 0) by (fold nd; lia).
+  destruct (H x ltac:(lia)) as [A B].
+  apply (contains1_inside (tf_nonneg m Hwf) (reg_atol_nonneg m Hwf)); assumption.
+Qed.
+
+(* a point of the closed region is accepted by point2index; the index is floor((p - lo)/c), clipped *)
+Lemma p2i_ok p : inside_box m p -> point2index m p = OK (nearest_idx m p).
+Proof.
+  intros H. pose proof (contains_inside p H) as C. destruct H as [L _]. fold nd in L.
+  unfold point2index, ndim. fold nd. rewrite L, Nat.eqb_refl, C. reflexivity.
+Qed.
+
+Lemma centre_nth i x : length i = nd -> (x < nd)%nat ->
+  nth x (centre m i) 0 =
+  i2p1 (nth x (pmin (reg m)) 0)
+       (cell_of (nth x (pmin (reg m)) 0) (nth x (pmax (reg m)) 0) (nth x (n m) 1%Z)) (nth x i 0%Z).
+Proof.
+  intros L Hx. destruct (wf_lengths m Hwf) as [L1 [L2 L3]]. fold nd in L1, L2, L3.
+  unfold centre. rewrite (nth_map3 _ _ _ _ _ 0 0 0 0%Z) by (fold nd; lia).
+  rewrite (cell_nth m Hwf x Hx). reflexivity.
+Qed.
+
+Lemma centre_length i : length i = nd -> length (centre m i) = nd.
+Proof.
+  intros L. destruct (wf_lengths m Hwf) as [L1 [L2 L3]]. fold nd in L1, L2, L3.
+  unfold centre. rewrite map3_length. fold nd. lia.
+Qed.
+
+Lemma centre_inside i : in_range (n m) i -> inside_box m (centre m i).
+Proof.
+  intros Hr. destruct (in_range_bounds _ _ Hr) as [L B].
+  destruct (wf_lengths m Hwf) as [L1 [L2 L3]]. fold nd in L1, L2, L3. rewrite L2 in L, B.
+  split; [apply centre_length; exact L|]. fold nd. intros x Hx.
+  rewrite (centre_nth i x L Hx). destruct (wf_axis m Hwf x Hx) as [Hlh Hk].
+  destruct (i2p1_inside Hlh Hk (nth x i 0%Z) (B x Hx)). split; lra.
+Qed.
+
+(* ----- (a) region2slices of an aligned subregion; block membership <-> centre inside ----- *)
+Section Sub.
+Variables (r : region) (a b : list Z).
+Hypothesis Hal : aligned m r a b.
+
+Lemma aligned_axis x : (x < nd)%nat ->
+  let lo := nth x (pmin (reg m)) 0 in let hi := nth x (pmax (reg m)) 0 in let k := nth x (n m) 1%Z in
+  lo < hi /\ (0 < k)%Z /\ ((0 <= nth x a 0 < nth x b 0)%Z /\ (nth x b 0 <= k)%Z) /\
+  nth x (pmin r) 0 == lo + inject_Z (nth x a 0%Z) * cell_of lo hi k /\
+  nth x (pmax r) 0 == lo + inject_Z (nth x b 0%Z) * cell_of lo hi k.
+Proof.
+  intros Hx lo hi k. destruct Hal as [_ [_ [_ [_ H]]]]. destruct (H x Hx) as [A [B [C D]]].
+  destruct (wf_axis m Hwf x Hx) as [Hlh Hk]. rewrite (cell_nth m Hwf x Hx) in C, D.
+  repeat split; try assumption; lia.
+Qed.
+
+Lemma region2block_aligned : region2block m r = OK (a, map (fun z => (z - 1)%Z) b).
+Proof.
+  destruct Hal as [La [Lb [Lc [Ld _]]]]. fold nd in La, Lb, Lc, Ld.
+  destruct (wf_lengths m Hwf) as [L1 [L2 L3]]. fold nd in L1, L2, L3.
+  set (P1 := map2 (fun p c => p + c / 2) (pmin r) (cell m)).
+  set (P2 := map2 (fun p c => p - c / 2) (pmax r) (cell m)).
+  assert (LP1 : length P1 = nd) by (unfold P1; rewrite map2_length; lia).
+  assert (LP2 : length P2 = nd) by (unfold P2; rewrite map2_length; lia).
+  assert (N1 : forall x, (x < nd)%nat -> nth x P1 0 = nth x (pmin r) 0 +
+             cell_of (nth x (pmin (reg m)) 0) (nth x (pmax (reg m)) 0) (nth x (n m) 1%Z) / 2).
+  { intros x Hx. unfold P1. rewrite (nth_map2 _ _ _ _ 0 0 0) by lia. rewrite (cell_nth m Hwf x Hx). reflexivity. }
+  assert (N2 : forall x, (x < nd)%nat -> nth x P2 0 = nth x (pmax r) 0 -
+             cell_of (nth x (pmin (reg m)) 0) (nth x (pmax (reg m)) 0) (nth x (n m) 1%Z) / 2).
+  { intros x Hx. unfold P2. rewrite (nth_map2 _ _ _ _ 0 0 0) by lia. rewrite (cell_nth m Hwf x Hx). reflexivity. }
+  assert (I1 : inside_box m P1).
+  { split; [exact LP1|]. fold nd. intros x Hx. rewrite (N1 x Hx).
+    destruct (aligned_axis x Hx) as [Hlh [Hk [Hab [Hs Ht]]]].
+    destruct (block_points_inside _ _ _ Hlh Hk _ _ _ _ Hab Hs Ht) as [A [B _]]. split; assumption. }
+  assert (I2 : inside_box m P2).
+  { split; [exact LP2|]. fold nd. intros x Hx. rewrite (N2 x Hx).
+    destruct (aligned_axis x Hx) as [Hlh [Hk [Hab [Hs Ht]]]].
+    destruct (block_points_inside _ _ _ Hlh Hk _ _ _ _ Hab Hs Ht) as [_ [_ [A B]]]. split; assumption. }
+  unfold region2block. fold P1 P2. rewrite (p2i_ok P1 I1), (p2i_ok P2 I2). simpl.
+  f_equal. f_equal.
+  - apply nth_ext_Z; [rewrite nearest_idx_length; lia|].
+    intros x Hx. rewrite nearest_idx_length in Hx by exact LP1.
+    rewrite (nearest_idx_nth P1 x LP1 Hx), (N1 x Hx).
+    destruct (aligned_axis x Hx) as [Hlh [Hk [Hab [Hs Ht]]]].
+    apply (block_lo _ _ _ Hlh Hk _ _ _ Hab Hs).
+  - apply nth_ext_Z; [rewrite nearest_idx_length, map_length; lia|].
+    intros x Hx. rewrite nearest_idx_length in Hx by exact LP2.
+    rewrite (nearest_idx_nth P2 x LP2 Hx), (N2 x Hx).
+    rewrite (nth_map_dflt _ _ _ 0%Z) by lia.
+    destruct (aligned_axis x Hx) as [Hlh [Hk [Hab [Hs Ht]]]].
+    apply (block_hi _ _ _ Hlh Hk _ _ _ Hab Ht).
+Qed.
+
+Lemma block_iff_centre i : length i = nd ->
+  (in_block a (map (fun z => (z - 1)%Z) b) i = true <-> centre_in m i r).
+Proof.
+  intros Li. destruct Hal as [La [Lb [Lc [Ld _]]]]. fold nd in La, Lb, Lc, Ld.
+  unfold in_block, centre_in. fold nd. rewrite map_length, Li, Lc, Ld, Nat.eqb_refl. simpl.
+  rewrite forallb_id_nth. rewrite map3_length, map_length, Lc, Ld, Li.
+  replace (Nat.min nd (Nat.min nd nd)) with nd by lia.
+  split; intros H x Hx; specialize (H x Hx);
+    destruct (aligned_axis x Hx) as [Hlh [Hk [Hab [Hs Ht]]]];
+    pose proof (centre_in_block _ _ _ Hlh Hk _ _ _ _ Hs Ht (nth x i 0%Z)) as E;
+    rewrite <- (centre_nth i x Li Hx) in E.
+  - rewrite (nth_map3 _ _ _ _ _ true 0%Z 0%Z 0%Z) in H by (rewrite ?map_length; lia).
+    rewrite (nth_map_dflt _ _ _ 0%Z) in H by lia. apply andb_true_iff in H. destruct H as [H0 H1].
+    apply Z.leb_le in H0, H1. apply E. lia.
+  - rewrite (nth_map3 _ _ _ _ _ true 0%Z 0%Z 0%Z) by (rewrite ?map_length; lia).
+    rewrite (nth_map_dflt _ _ _ 0%Z) by lia. apply andb_true_iff. rewrite !Z.leb_le. apply E. exact H.
+Qed.
+
+(* ----- (b) the submesh mesh[subregion]: b - a cells, same centres ----- *)
+Lemma submesh_spec sm : mesh_by_cell r (cell m) = OK sm ->
+  reg sm = r /\ n sm = map2 Z.sub b a /\
+  forall i, length i = nd -> forall x, (x < nd)%nat ->
+    nth x (centre sm (map2 Z.sub i a)) 0 == nth x (centre m i) 0.
+Proof.
+  intros E. destruct Hal as [La [Lb [Lc [Ld _]]]]. fold nd in La, Lb, Lc, Ld.
+  destruct (wf_lengths m Hwf) as [L1 [L2 L3]]. fold nd in L1, L2, L3.
+  unfold mesh_by_cell in E.
+  repeat match type of E with (if ?c then _ else _) = _ => destruct c; [discriminate|] end.
+  injection E as <-.
+  set (ns := map2 (fun e c => Qround_half_even (e / c)) (edges r) (cell m)).
+  assert (Lns : length ns = nd) by (unfold ns, edges, edges_of; rewrite !map2_length; lia).
+  assert (Ln : forall x, (x < nd)%nat -> nth x ns 1%Z = (nth x b 0 - nth x a 0)%Z).
+  { intros x Hx. unfold ns, edges, edges_of.
+    rewrite (nth_map2 _ _ _ _ 1%Z 0 0) by (rewrite ?map2_length; lia).
+    rewrite (nth_map2 _ _ _ _ 0 0 0) by lia. rewrite (cell_nth m Hwf x Hx).
+    destruct (aligned_axis x Hx) as [Hlh [Hk [Hab [Hs Ht]]]].
+    apply (sub_count _ _ _ Hlh Hk _ _ _ _ Hab Hs Ht). }
+  split; [reflexivity|]. split.
+  - cbn [n]. apply nth_ext_Z.
+    + rewrite map2_length. lia.
+    + intros x Hx. rewrite Lns in Hx.
+      rewrite (nth_indep _ 0%Z 1%Z) by lia.
+      rewrite (Ln x Hx). rewrite (nth_map2 _ _ _ _ 0%Z 0%Z 0%Z) by lia. reflexivity.
+  - intros i Li x Hx. rewrite (centre_nth i x Li Hx).
+    unfold centre. change (cell (mkMesh r ns "" [])) with (map3 cell_of (pmin r) (pmax r) ns).
+    cbn [reg].
+    rewrite (nth_map3 _ _ _ _ _ 0 0 0 0%Z) by (rewrite ?map3_length, ?map2_length; lia).
+    rewrite (nth_map3 _ _ _ _ _ 0 0 0 1%Z) by lia.
+    rewrite (Ln x Hx). rewrite (nth_map2 _ _ _ _ 0%Z 0%Z 0%Z) by lia.
+    destruct (aligned_axis x Hx) as [Hlh [Hk [Hab [Hs Ht]]]].
+    apply (sub_centre _ _ _ _ _ _ _ Hab Hs Ht).
+Qed.
+End Sub.
+
+(* ----- (c) a source mesh m and a point q of its closed region: the selected cell contains q ----- *)
+Lemma source_pick_contains_nd q : inside_box m q ->
+  forall x, (x < nd)%nat ->
+    let j := nth x (nearest_idx m q) 0%Z in
+    let lo := nth x (pmin (reg m)) 0 in let c := nth x (cell m) 0 in
+    (0 <= j < nth x (n m) 1)%Z /\ lo + inject_Z j * c <= nth x q 0 /\ nth x q 0 <= lo + (inject_Z j + 1) * c.
+Proof.
+  intros [L H] x Hx. fold nd in L, H. simpl.
+  rewrite (nearest_idx_nth q x L Hx), (cell_nth m Hwf x Hx).
+  destruct (wf_axis m Hwf x Hx) as [Hlh Hk]. destruct (H x Hx) as [A B].
+  apply (pick_contains _ _ _ Hlh Hk _ A B).
+Qed.
+
+Lemma source_nearest_contains_nd q (jl : zidx) : inside_box m q -> length jl = nd ->
+  (forall x, (x < nd)%nat ->
+     let lo := nth x (pmin (reg m)) 0 in let c := nth x (cell m) 0 in
+     (0 <= nth x jl 0 < nth x (n m) 1)%Z /\
+     forall j, (0 <= j < nth x (n m) 1)%Z ->
+       Qabs (i2p1 lo c (nth x jl 0%Z) - nth x q 0) <= Qabs (i2p1 lo c j - nth x q 0)) ->
+  forall x, (x < nd)%nat ->
+    let lo := nth x (pmin (reg m)) 0 in let c := nth x (cell m) 0 in
+    lo + inject_Z (nth x jl 0%Z) * c <= nth x q 0 /\ nth x q 0 <= lo + (inject_Z (nth x jl 0%Z) + 1) * c.
+Proof.
+  intros [L H] Lj Hmin x Hx. fold nd in L, H. specialize (Hmin x Hx). simpl in *.
+  rewrite (cell_nth m Hwf x Hx) in *.
+  destruct (wf_axis m Hwf x Hx) as [Hlh Hk]. destruct (H x Hx) as [A B]. destruct Hmin as [R M].
+  apply (nearest_contains _ _ _ Hlh Hk _ _ A B R M).
+Qed.
+End ND.
+
+(* the centres of a target mesh whose region lies in the source region are points of the source region *)
+Lemma target_centres_in_source (t s : mesh) (i : zidx) :
+  wf_mesh t -> length (pmin (reg s)) = length (pmin (reg t)) ->
+  (forall x, (x < length (pmin (reg t)))%nat ->
+     nth x (pmin (reg s)) 0 <= nth x (pmin (reg t)) 0 /\ nth x (pmax (reg t)) 0 <= nth x (pmax (reg s)) 0) ->
+  in_range (n t) i -> inside_box s (centre t i).
+Proof.
+  intros Ht L H Hr. destruct (centre_inside t Ht i Hr) as [Lc Hc].
+  split; [lia|]. rewrite L. intros x Hx. specialize (H x Hx). specialize (Hc x Hx). lra.
+Qed.
+
+Lemma field_spec_value {V} (m : mesh) (nv : nat) (src : fstate V) a :
+  as_array_field m nv src = OK a ->
+  fnv src = nv /\ forall i, a i = farr src (nearest_idx (fmesh src) (centre m i)).
+Proof.
+  unfold as_array_field.
+  repeat match goal with |- (if ?c then _ else _) = _ -> _ => destruct c eqn:?; [discriminate|] end.
+  intros H; injection H as <-. split; [|reflexivity].
+  match goal with H : negb (_ =? _)%nat = false |- _ => apply negb_false_iff, Nat.eqb_eq in H; exact H end.
+Qed.
+
+(* ---------- (d) line ---------- *)
+Lemma mapres_all_ok {A B} (f : A -> res B) l :
+  (forall x, In x l -> exists b, f x = OK b) -> exists bs, mapres f l = OK bs.
+Proof.
+  induction l as [|x t IH]; intros H; simpl; [eauto|].
+  destruct (H x (or_introl eq_refl)) as [b Eb]. rewrite Eb. simpl.
+  destruct IH as [bs Ebs]; [intros y Hy; apply H; right; exact Hy|]. rewrite Ebs. simpl. eauto.
+Qed.
+
+Lemma line_points_inside_nd (m : mesh) p1 p2 k p :
+  inside_box m p1 -> inside_box m p2 -> (2 <= k)%Z -> In p (line_points p1 p2 k) -> inside_box m p.
+Proof.
+  intros [L1 H1] [L2 H2] Hk Hp. unfold line_points in Hp. apply in_map_iff in Hp.
+  destruct Hp as [j [<- Hj]]. apply In_ziota in Hj. rewrite Z2Nat.id in Hj by lia.
+  split.
+  - unfold line_point. rewrite map2_length. lia.
+  - intros x Hx. apply line_inside; try lia; auto.
+Qed.
+
+Section Line.
+Variable V : Type.
+
+Lemma line_values (f : fstate V) p1 p2 k l :
+  field_line f p1 p2 k = OK l ->
+  (2 <= k)%Z /\ contains_pt (reg (fmesh f)) p1 = true /\ contains_pt (reg (fmesh f)) p2 = true /\
+  l_points l = line_points p1 p2 k /\
+  Forall2 (fun p v => sample f p = OK v) (l_points l) (l_values l) /\
+  l_r2 l = map (fun p => dist2 p (hd [] (l_points l))) (l_points l).
+Proof.
+  unfold field_line, mesh_line.
+  destruct (contains_pt (reg (fmesh f)) p1) eqn:C1; simpl; [|discriminate].
+  destruct (contains_pt (reg (fmesh f)) p2) eqn:C2; simpl; [|discriminate].
+  destruct (k <? 2)%Z eqn:Ek; simpl; [discriminate|]. apply Z.ltb_ge in Ek.
+  destruct (mapres (sample f) (line_points p1 p2 k)) as [vals|] eqn:Em; simpl; [|discriminate].
+  intros H; injection H as <-. simpl. repeat split; auto.
+  apply mapres_Forall2. exact Em.
+Qed.
+
+Lemma line_accepts (f : fstate V) p1 p2 k :
+  wf_mesh (fmesh f) -> inside_box (fmesh f) p1 -> inside_box (fmesh f) p2 -> (2 <= k)%Z ->
+  exists l, field_line f p1 p2 k = OK l /\ l_points l = line_points p1 p2 k /\
+            length (l_values l) = Z.to_nat k /\
+            Forall2 (fun p v => exists i, point2index (fmesh f) p = OK i /\ v = farr f i)
+                    (l_points l) (l_values l).
+Proof.
+  intros Hwf I1 I2 Hk. unfold field_line, mesh_line.
+  rewrite (contains_inside _ Hwf p1 I1), (contains_inside _ Hwf p2 I2). simpl.
+  assert (Ek : (k <? 2)%Z = false) by (apply Z.ltb_ge; lia). rewrite Ek. simpl.
+  destruct (mapres_all_ok (sample f) (line_points p1 p2 k)) as [vals Ev].
+  { intros p Hp. pose proof (line_points_inside_nd _ _ _ _ _ I1 I2 Hk Hp) as Ip.
+    unfold sample. rewrite (p2i_ok _ Hwf p Ip). simpl. eauto. }
+  rewrite Ev. simpl. eexists. split; [reflexivity|]. simpl. split; [reflexivity|]. split.
+  - rewrite (mapres_length _ _ _ Ev). apply line_points_length.
+  - apply mapres_Forall2 in Ev. induction Ev; constructor; auto. apply sample_spec. assumption.
+Qed.
+End Line.
+
+(* ---------- the dictionary rule in the property's own words ---------- *)
+Lemma find_first_Forall2 {A B} (R : A -> B -> Prop) (P : A -> Prop) (q : B -> bool) l bs :
+  Forall2 R l bs -> (forall x y, R x y -> (q y = true <-> P x)) ->
+  match find q bs with
+  | Some y => exists l1 x l2, l = l1 ++ x :: l2 /\ (forall z, In z l1 -> ~ P z) /\ P x /\ R x y
+  | None => forall z, In z l -> ~ P z
+  end.
+Proof.
+  intros H E. induction H as [|x y l bs Hxy H IH]; simpl; [tauto|].
+  destruct (q y) eqn:Eq.
+  - exists [], x, l. repeat split; auto. apply (E x y Hxy). exact Eq.
+  - assert (N : ~ P x). { intros Px. apply (E x y Hxy) in Px. congruence. }
+    destruct (find q bs) as [y'|].
+    + destruct IH as [l1 [x' [l2 [-> [H1 [H2 H3]]]]]].
+      exists (x :: l1), x', l2. repeat split; auto. intros z [<-|Hz]; auto.
+    + intros z [<-|Hz]; auto.
+Qed.
+
+Section Dict.
+Variable V : Type.
+Variable vzero : V.
+Variable is_zero : V -> bool.
+
+Lemma mk_block_spec (m : mesh) (nv : nat) (r : region) (sv : sspec V) (a b : list Z) blk :
+  wf_mesh m -> aligned m r a b ->
+  mk_block vzero is_zero m nv r sv = OK blk ->
+  exists sm sub, mesh_by_cell r (cell m) = OK sm /\ as_array_simple vzero is_zero sm nv sv = OK sub /\
+    b_lo blk = a /\ b_hi blk = map (fun z => (z - 1)%Z) b /\ b_arr blk = sub.
+Proof.
+  intros Hwf Hal. unfold mk_block.
+  destruct (mesh_by_cell r (cell m)) as [sm|] eqn:Es; simpl; [|discriminate].
+  destruct (submesh_spec m Hwf r a b Hal sm Es) as [Er _]. rewrite Er.
+  rewrite (region2block_aligned m Hwf r a b Hal). simpl.
+  destruct (as_array_simple vzero is_zero sm nv sv) as [sub|] eqn:Ea; simpl; [|discriminate].
+  destruct (zlist_eqb _ _); [|discriminate].
+  intros H; injection H as <-. exists sm, sub. simpl. auto.
+Qed.
+
+Definition default_rule (m : mesh) (nv : nat) (d : ddefault V) (arr : zidx -> list V) (i : zidx) : Prop :=
+  match d with
+  | DNone => False
+  | DFill s => exists f, fill_array vzero m nv s = OK f /\ arr i = f i
+  | DCall f => arr i = f (centre m i) /\ length (arr i) = nv
+  | DSample src => sample src (centre m i) = OK (arr i) /\ length (arr i) = nv
+  end.
+
+(* every cell holds the value of the FIRST-LISTED subregion (among those with a key) whose closed
+   extent contains the cell centre - the sub-value being evaluated on the submesh, whose cell centres
+   are the mesh's cell centres - and otherwise the default *)
+Theorem dict_first_containing (m : mesh) (nv : nat) (items : list (string * sspec V)) (d : ddefault V) arr :
+  wf_mesh m ->
+  (forall rs, In rs (keyed m items) -> exists a b, aligned m (fst rs) a b) ->
+  as_array_dict vzero is_zero m nv items d = OK arr ->
+  forall i, In i (indices_xfast (n m)) ->
+    (exists l1 r sv l2 sm sub a b,
+        keyed m items = l1 ++ (r, sv) :: l2 /\
+        (forall rs, In rs l1 -> ~ centre_in m i (fst rs)) /\ centre_in m i r /\
+        aligned m r a b /\ mesh_by_cell r (cell m) = OK sm /\
+        as_array_simple vzero is_zero sm nv sv = OK sub /\
+        arr i = sub (map2 Z.sub i a) /\
+        forall x, (x < length (pmin (reg m)))%nat ->
+          nth x (centre sm (map2 Z.sub i a)) 0 == nth x (centre m i) 0)
+    \/
+    ((forall rs, In rs (keyed m items) -> ~ centre_in m i (fst rs)) /\ default_rule m nv d arr i).
+Proof.
+  intros Hwf Hal H i Hi.
+  destruct (dict_first_wins V vzero is_zero m nv items d arr H) as [bs [_ [F W]]].
+  specialize (W i Hi).
+  assert (Hr : in_range (n m) i).
+  { apply indices_xfast_in_range; [|exact Hi].
+    destruct Hwf as [_ [_ Hp]]. eapply Forall_impl; [|exact Hp]. simpl. intros; lia. }
+  destruct (in_range_bounds _ _ Hr) as [Li _].
+  destruct (wf_lengths m Hwf) as [_ [L2 _]]. rewrite L2 in Li.
+  (* restrict the Forall2 to pairs that are in keyed, to use alignment *)
+  assert (F' : Forall2 (fun rs blk => In rs (keyed m items) /\
+                         mk_block vzero is_zero m nv (fst rs) (snd rs) = OK blk) (keyed m items) bs).
+  { clear -F. assert (G : forall l, (forall z, In z l -> In z (keyed m items)) ->
+      forall bs, Forall2 (fun rs b => mk_block vzero is_zero m nv (fst rs) (snd rs) = OK b) l bs ->
+      Forall2 (fun rs blk => In rs (keyed m items) /\
+                 mk_block vzero is_zero m nv (fst rs) (snd rs) = OK blk) l bs).
+    { intros l Hl bs0 F0. induction F0; constructor; auto.
+      - split; auto. apply Hl. left; reflexivity.
+      - apply IHF0. intros z Hz. apply Hl. right; exact Hz. }
+    apply G; auto. }
+  pose proof (find_first_Forall2 _ (fun rs => centre_in m i (fst rs))
+                (fun blk => in_block (b_lo blk) (b_hi blk) i) _ _ F') as K.
+  unfold first_block in W.
+  assert (E : forall (x : region * sspec V) (y : block V),
+           In x (keyed m items) /\ mk_block vzero is_zero m nv (fst x) (snd x) = OK y ->
+           (in_block (b_lo y) (b_hi y) i = true <-> centre_in m i (fst x))).
+  { intros [r sv] blk [Hin Hb]. simpl in *. destruct (Hal _ Hin) as [a [b Hab]]. simpl in Hab.
+    destruct (mk_block_spec m nv r sv a b blk Hwf Hab Hb) as [sm [sub [_ [_ [-> [-> _]]]]]].
+    apply (block_iff_centre m Hwf r a b Hab i Li). }
+  specialize (K E).
+  destruct (find (fun b => in_block (b_lo b) (b_hi b) i) bs) as [blk|].
+  - left. destruct K as [l1 [[r sv] [l2 [Ek [N [P [Hin Hb]]]]]]]. simpl in *.
+    destruct (Hal _ Hin) as [a [b Hab]]. simpl in Hab.
+    destruct (mk_block_spec m nv r sv a b blk Hwf Hab Hb) as [sm [sub [Es [Ea [Elo [_ Earr]]]]]].
+    exists l1, r, sv, l2, sm, sub, a, b.
+    split; [exact Ek|]. split; [exact N|]. split; [exact P|]. split; [exact Hab|].
+    split; [exact Es|]. split; [exact Ea|]. split.
+    + rewrite W, Elo, Earr. reflexivity.
+    + destruct (submesh_spec m Hwf r a b Hab sm Es) as [_ [_ C]]. intros x Hx. apply C; assumption.
+  - right. split; [exact K|]. unfold default_rule. exact W.
+Qed.
+End Dict.
+
+(* ---------- non-vacuity: an aligned subregion of a concrete mesh ---------- *)
+Lemma nonvacuous_aligned :
+  let r := mkRegion [0; (-1)] [4; 2] ["x"%string; "y"%string] ["m"%string; "m"%string] (1 # 1000000000000) in
+  let m := mkMesh r [4; 6]%Z "" [] in
+  let s := mkRegion [1; (-1)] [3; 0] ["x"%string; "y"%string] ["m"%string; "m"%string] (1 # 1000000000000) in
+  wf_mesh m /\ aligned m s [1; 0]%Z [3; 2]%Z /\
+  region2block m s = OK ([1; 0]%Z, [2; 1]%Z) /\
+  inside_box m [4; (-1)] /\ inside_box m [0; 2].
+Proof.
+  intros r m s. split; [exact (proj1 nonvacuous_mesh)|]. split; [|split; [vm_compute; reflexivity|]].
+  - unfold aligned. simpl. repeat split; try reflexivity.
+    intros [|[|x]] Hx; simpl in *; try lia; (repeat split; try lia; vm_compute; reflexivity).
+  - split; (split; [reflexivity|]); intros [|[|x]] Hx; simpl in *; try lia; split; vm_compute; congruence.
+Qed.
